@@ -15,12 +15,22 @@
 #include <sstream>
 #include <string>
 #include <vector>
+#include "MFront/SupportedTypes.hxx"
 #include "MFront/FileDescription.hxx"
 #include "MFront/BehaviourDescription.hxx"
 #include "MFront/VariableDescription.hxx"
 #include "MFront/VariableBoundsDescription.hxx"
 #include "MFront/MaterialKnowledgeDescription.hxx"
 #include "MFront/BehaviourCodeGeneratorBase.hxx"
+
+// not exported by libTFELMFront (hidden visibility) although BehaviourCodeGeneratorBase.cxx refers to it:
+// same one-line definition as in mfront/src/SupportedTypes.cxx; not reached by the bounds-check emitters
+namespace mfront {
+  std::ostream& operator<<(std::ostream& os, const SupportedTypes::TypeSize& s) {
+    os << s.asString();
+    return os;
+  }
+}  // namespace mfront
 
 namespace {
 
